@@ -435,6 +435,40 @@ func runC01() {
 			}
 		}
 	}
+	// values written down by hand (base environment: S = "abc", S2 = "b", AS = ["a", "b", "abc"], B = true): string literals that
+	// spell a punctuation token or an operator are values like any other - from the SOURCE TEXT to the result, through the real
+	// lexer and parser (the comparisons above start from the tree the parser returned)
+	for _, c := range []struct {
+		src  string
+		want interface{}
+	}{
+		{`count(AS, {# == "#"})`, 0}, {`map(AS, {# + "#"})`, []interface{}{"a#", "b#", "abc#"}}, {`S contains "."`, false}, {`S == "("`, false}, {`len([")", "]"])`, 2},
+		{`[":", ","][0]`, ":"}, {`S + ":" + S2`, "abc:b"}, {`{"a": ":"}.a`, ":"}, {`B ? "?" : ":"`, "?"}, {`"." + "."`, ".."}, {`filter(AS, {# != "."})`, []interface{}{"a", "b", "abc"}},
+		{`S in ["(", ")", "#"]`, false}, {`"in" in ["in", "and", "or"]`, true}, {`"not" == "not"`, true}, {`all(AS, {# != "{" and # != "}"})`, true}, {`AS[0] == "["`, false},
+		{`["#", ".", "?.", "..", "**"][4]`, "**"}, {`len("?:") + len("#")`, 3}, {`map(["#"], {#})[0]`, "#"},
+	} {
+		for _, m := range modes {
+			rep.Evaluations++
+			rep.hist("hand-written value of a punctuation literal")
+			var got interface{}
+			var err error
+			func() {
+				defer func() {
+					if r := recover(); r != nil {
+						err = fmt.Errorf("panic: %v", r)
+					}
+				}()
+				var p *vm.Program
+				if p, err = expr.Compile(c.src, m.options(envs[0])...); err == nil {
+					got, err = expr.Run(p, envs[0])
+				}
+			}()
+			if err != nil || cqValue(normSeq(got)) != cqValue(normSeq(c.want)) {
+				rep.fail(Failure{Key: "C01-literal-value", What: "an expression over string literals that spell tokens does not return the value the language definition assigns",
+					Input: map[string]interface{}{"src": c.src, "mode": m.Name, "env": 0}, Want: fmt.Sprintf("%#v", c.want), Got: fmt.Sprintf("%#v / %v", got, err)})
+			}
+		}
+	}
 	rep.Distinct = len(distinct)
 	rep.Rule = "sources = a shuffled sample (quick) or all (thorough) of an exhaustive family of leaf/unary/binary/ternary/postfix/call/builtin shapes over 9 leaves, plus type-directed random expressions of depth 2-4 over the environment universe with forced closures/conditionals/short-circuits and 1.5% deliberately ill-typed operands; each compiled untyped, typed and typed+optimized through the replicated expr.Compile pipeline (checked equal to expr.Compile) and run on base/zero/boundary/random environments; distinct_nontrivial counts distinct (source, mode, environment) whose source contains a closure, conditional, connective or call"
 	for i := 0; i < 5 && i < len(srcs); i++ {
